@@ -24,6 +24,7 @@ import (
 // judged by Trace_Reload.tla; the driver is built with -race (the orchestrator counts race reports).
 
 type vpRelVersion struct {
+	bulk  bool // preceded by 30 000 filler entries
 	good  bool
 	users [][2]string // key, secret (htpasswd: user, password; e-mails: address, "")
 }
@@ -80,7 +81,8 @@ func vpGenVersions(rng *mrand.Rand, n int, emails bool) []vpRelVersion {
 				break
 			}
 		}
-		vs = append(vs, vpRelVersion{good: true, users: snap()})
+		// one version in six is LARGE: the same entries preceded by 30 000 others (well over a megabyte) - the contents are what counts
+		vs = append(vs, vpRelVersion{good: true, users: snap(), bulk: !emails && rng.Intn(6) == 0})
 	}
 	return vs
 }
@@ -97,6 +99,13 @@ func vpRenderVersion(v vpRelVersion, emails bool) string {
 		return "zed:{SHA}" + h + "\nfay:{SHA}" + h + "\nann:{SHA}x:extra-field\nnot-a-valid-line\n"
 	}
 	var sb strings.Builder
+	if v.bulk {
+		d := sha1.Sum([]byte("filler"))
+		h := base64.StdEncoding.EncodeToString(d[:])
+		for i := 0; i < 30000; i++ {
+			fmt.Fprintf(&sb, "bulk%05d:{SHA}%s\n", i, h)
+		}
+	}
 	for _, u := range v.users {
 		if emails {
 			sb.WriteString(u[0] + "\n")
